@@ -15,6 +15,7 @@ mod synth;
 static GLOBAL: isolate::Counting = isolate::Counting;
 
 mod c01;
+mod c02;
 mod c03;
 mod c06;
 mod c10;
@@ -34,6 +35,7 @@ struct Check {
 fn checks() -> Vec<Check> {
     vec![
         Check { id: "C01", level: "fault_enumeration", run: c01::run, replay: Some(c01::replay) },
+        Check { id: "C02", level: "model_checking", run: c02::run, replay: Some(c02::replay) },
         Check { id: "C03", level: "model_checking", run: c03::run, replay: Some(c03::replay) },
         Check { id: "C06", level: "model_checking", run: c06::run, replay: Some(c06::replay) },
         Check { id: "C10", level: "model_checking", run: c10::run, replay: Some(c10::replay) },
@@ -95,6 +97,25 @@ fn main() {
         }
         "c01-worker" => {
             c01::worker(&args[2..]);
+        }
+        "c02-worker" => {
+            c01::worker_with(&args[2..], c02::layout_seeds, c02::shape_battery);
+        }
+        "c02-debug" => {
+            let data = std::fs::read(&args[2]).unwrap();
+            let text = &args[3];
+            let r = util::with_font(&data, |font| {
+                use allsorts::gsub::{FeatureInfo, Features};
+                let glyphs = font.map_glyphs(text, allsorts::tag::LATN, allsorts::font::MatchingPresentation::NotRequired);
+                println!("in: {:?}", glyphs.iter().map(|g| g.glyph_index).collect::<Vec<_>>());
+                let f = Features::Custom(vec![FeatureInfo { feature_tag: otmodel::tag(b"test"), alternate: None }]);
+                let r = font.shape(glyphs, allsorts::tag::LATN, Some(otmodel::tag(b"UNKN")), &f, None, true);
+                match r {
+                    Ok(i) => println!("ok: {:?}", i.iter().map(|g| (g.glyph.glyph_index, g.kerning, format!("{:?}", g.placement))).collect::<Vec<_>>()),
+                    Err((e, i)) => println!("err {:?}: {:?}", e, i.iter().map(|g| g.glyph.glyph_index).collect::<Vec<_>>()),
+                }
+            });
+            println!("{:?}", r);
         }
         "c03-pure-child" => {
             c03::pure_child();
